@@ -162,6 +162,31 @@ def acceptor(hist, io):
     return refdict.accept(hist, io, scope=SCOPE)
 
 
+def lfu_witness_probe():
+    """the Lean witness DC.Cache.set_evicts_itself_lfu (and exEv_outs) replayed on the real cache:
+    least-frequently-used, cull_limit 1, cache at its limit, the resident item read once - a new item is
+    the least frequently used one, so `set` returns True and the item is gone at once while the old one
+    stays.  A difference means the model of `_cull` no longer describes the code."""
+    import os
+    import shutil
+    import tempfile
+    import diskcache
+    root = os.environ.get('VERIF_SCRATCH') or tempfile.gettempdir()
+    d = tempfile.mkdtemp(prefix='lfuwit-', dir=root)
+    try:
+        c = diskcache.Cache(d, eviction_policy='least-frequently-used', cull_limit=1)
+        got = [c.set('a', 1), c.get('a')]
+        c.reset('size_limit', 1)          # from now on the cache is at its limit
+        got += [c.set('b', 2), c.get('b'), c.get('a'), len(c)]
+        c.close()
+        want = [True, 1, True, None, 1, 1]
+        if got != want:
+            return ['the Lean witness set_evicts_itself_lfu replayed on the real cache gives %r, the model gives %r' % (got, want)]
+        return []
+    finally:
+        shutil.rmtree(d, ignore_errors=True)
+
+
 def run(tier, seed, rng, known, replay):
     if replay:
         return base.replay_file(replay, 'C09', ('result', 'state'), acceptor)
@@ -170,6 +195,9 @@ def run(tier, seed, rng, known, replay):
     for h in hists:
         h['state_every'] = 1
     r = base.check_histories('C09', hists, ('result', 'state'), acceptor=acceptor, known=known)
+    for v_ in lfu_witness_probe():
+        r['violations'].append({'replay': {'property': 'C09', 'kind': 'correspondence', 'model_part': 'DC.Cache.cullW (witness set_evicts_itself_lfu)', 'acceptor': v_},
+                                'found_input': False, 'what': v_})
     dist, distinct = base.op_distribution(hists, r['impl_out'])
     return {
         'evaluations': sum(len(h['ops']) for h in hists), 'distinct_nontrivial': distinct,
